@@ -336,7 +336,7 @@ PROPS["C15"] = dict(
 def _c02_runs(extra):
     runs = []
     for d, cfg in (("sqlite", _lt), ("mysql", _my), ("postgres", _pg)):
-        for g in ("col", "idx", "rest", "pairs") + extra:
+        for g in ("col", "idx", "idxattr", "rest", "pairs") + extra:
             reach = ["changes", "no-change"]
             runs.append(dict(cfg, harness=f"VerifHarness_C02_{d}_{g}", reach=reach))
     return runs
@@ -349,7 +349,9 @@ PROPS["C02"] = dict(
                  "(present/absent per side; type family int/text/real; NULL-ability symbolic; default none or quoted one-letter literal with symbolic letter; "
                  "MySQL/PostgreSQL: comment none or symbolic letter), index (present/absent; unique and descending symbolic), primary key, foreign key "
                  "(present/absent; composite (b,c)->(id,id2) with child or parent columns optionally swapped; ON DELETE in {unset, NO ACTION, CASCADE}), named check (present/absent; symbolic one-letter expression), SQLite STRICT; "
-                 "groups: column / index+pk / fk+check+option with the rest fixed, plus every present/absent combination of all elements x declaration order",
+                 "groups: column / index+pk / fk+check+option with the rest fixed, plus every present/absent combination of all elements x declaration order; "
+                 "index attributes on both sides (PostgreSQL: predicate in 3 values x INCLUDE list in 3 values x HASH; MySQL: HASH x comment in 3 values x "
+                 "prefix length in 3 values; SQLite: unique x predicate in 3 values)",
         "thorough": "same plus the 2^8 skip-policy subsets (see C19)",
     },
     assumptions=[
@@ -358,7 +360,7 @@ PROPS["C02"] = dict(
         "defaults are given in the normalized (inspected) spelling: single-quoted literals for MySQL/PostgreSQL; SQLite also double-quoted",
     ],
     outside="realm / schema level objects, views, triggers, functions; renames (interactive askFor*), generated-index-name matching; charset / "
-            "collation / auto_increment / identity / index type attributes; DiffModeNotNormalized (needs a live dev connection for PostgreSQL)",
+            "collation / auto_increment / identity attributes, index storage parameters, operator classes; DiffModeNotNormalized (needs a live dev connection for PostgreSQL)",
     claim="For every template instance within the bounds the real TableDiff (sqlx.Diff + the dialect driver) returns exactly one change per "
           "elementary edit with exactly the expected ChangeKind flags and nothing for unedited elements; diff with itself / a permuted copy is empty. "
           "The expected set comes from an independent reference in the harness.",
